@@ -5,12 +5,29 @@
 //! real code:  `e.to_quil()` → `verif_hooks::lex_tokens(text)` → `Expression::from_str(text)` →
 //! `evaluate` of the original and of the re-parsed tree at the four assignments.  Output
 //!
-//!   (out "text" (toks TOKEN…)|(lexerr) (ok E')|(err) (vals (v v v v) (v v v v)))
+//!   (out "text" (toks TOKEN…)|(lexerr) (ok E')|(err) (vals (v v v v) (v v v v)) (routes same|differ) (again true|false))
 //!
 //! with `v = (ok (c xRE xIM)) | (err)`; the second value list is empty when the re-parse failed.
+//! `routes`: every printing entry point (`to_quil` before and after parsing, `to_quil_or_debug`,
+//! `Quil::write` with `fall_back_to_debug`) wrote the same text; `again`: printing the re-parsed tree and
+//! parsing that text gives the re-parsed tree back (second round trip is the identity).
+//!
+//! `(emb STREAM POS E ASEED)`: the expression embedded in an instruction (gate parameter, DELAY duration,
+//! frame attribute, waveform argument, DEFGATE matrix entry, PAULI-SUM term, DEFCAL parameter, …), printed
+//! with the instruction and read back through `Program::from_str`:
+//!   (embout "text" (ok E')|(err)|(badshape) FROMSTR (vals (v…) (v…)))
+//! `(imm xRE xIM)`: a CALL immediate argument: (immout "text" (ok xRE xIM)|(err)).
+//! Every returned error is formatted (`{}`, `{:#}`, `{:?}`) under `catch_unwind`.
 use num_complex::Complex64;
 use quil_rs::expression::{Expression, ExpressionFunction, InfixOperator, PrefixOperator};
+use quil_rs::instruction::{
+    AttributeValue, CalibrationDefinition, CalibrationIdentifier, Call, Capture, Delay, FrameAttributes,
+    FrameDefinition, FrameIdentifier, Gate, GateDefinition, GateSpecification, Instruction, MemoryReference,
+    PauliGate, PauliSum, PauliTerm, Pulse, Qubit, RawCapture, SetFrequency, SetPhase, SetScale, ShiftFrequency,
+    ShiftPhase, UnresolvedCallArgument, Waveform, WaveformDefinition, WaveformInvocation, WaveformParameters,
+};
 use quil_rs::quil::Quil;
+use quil_rs::Program;
 use quil_rs::verif_hooks;
 use qvh::expr::*;
 use qvh::lexwire::token_sexp;
@@ -53,30 +70,273 @@ fn assignments(seed: u64) -> Vec<Assignment> {
     (0..4).map(|_| assignment(&mut rng)).collect()
 }
 
+/// format an error every way a caller might (a panic in there is a crash of the case)
+fn exercise_error<E: std::fmt::Display + std::fmt::Debug>(e: &E) -> usize {
+    format!("{e}").len() + format!("{e:#}").len() + format!("{e:?}").len()
+}
+
+type Envs = Vec<(HashMap<String, Complex64>, HashMap<String, Vec<f64>>)>;
+
+fn envs(aseed: u64) -> Envs {
+    assignments(aseed).iter().map(|(v, m)| (v.iter().cloned().collect(), m.iter().cloned().collect())).collect()
+}
+
+fn values(e: &Expression, envs: &Envs) -> Vec<Sexp> {
+    envs.iter()
+        .map(|(v, m)| {
+            let r = e.evaluate(v, m);
+            if let Err(err) = &r {
+                std::hint::black_box(exercise_error(err));
+            }
+            eval_to_sexp(r)
+        })
+        .collect()
+}
+
 fn emit(ctx: &mut Ctx, stream: &str, e: &Expression, aseed: u64) {
     let input = tagged("rt", vec![atom(stream), expr_to_sexp(e), nat(aseed)]);
     ctx.case(input, || {
-        let asg = assignments(aseed);
         let text = match e.to_quil() {
             Ok(t) => t,
-            Err(_) => return tagged("printerr", vec![]),
+            Err(err) => {
+                std::hint::black_box(exercise_error(&err));
+                return tagged("printerr", vec![]);
+            }
         };
         let toks = match verif_hooks::lex_tokens(&text) {
             Ok(ts) => tagged("toks", ts.iter().map(token_sexp).collect()),
             Err(_) => tagged("lexerr", vec![]),
         };
         let back = Expression::from_str(&text);
-        let envs: Vec<(HashMap<String, Complex64>, HashMap<String, Vec<f64>>)> =
-            asg.iter().map(|(v, m)| (v.iter().cloned().collect(), m.iter().cloned().collect())).collect();
-        let orig: Vec<Sexp> = envs.iter().map(|(v, m)| eval_to_sexp(e.evaluate(v, m))).collect();
+        if let Err(err) = &back {
+            std::hint::black_box(exercise_error(err));
+        }
+        let envs = envs(aseed);
+        let orig = values(e, &envs);
         let (back_sexp, re): (Sexp, Vec<Sexp>) = match &back {
-            Ok(b) => (
-                tagged("ok", vec![expr_to_sexp(b)]),
-                envs.iter().map(|(v, m)| eval_to_sexp(b.evaluate(v, m))).collect(),
-            ),
+            Ok(b) => (tagged("ok", vec![expr_to_sexp(b)]), values(b, &envs)),
             Err(_) => (tagged("err", vec![]), vec![]),
         };
-        tagged("out", vec![st(text), toks, back_sexp, tagged("vals", vec![list(orig), list(re)])])
+        // every printing route, and printing again after the parser ran
+        let mut written = String::new();
+        let w = e.write(&mut written, true);
+        let routes_same =
+            e.to_quil().ok().as_deref() == Some(text.as_str()) && e.to_quil_or_debug() == text && w.is_ok() && written == text;
+        // second round trip: print the re-parsed tree, parse it again
+        let again = match &back {
+            Ok(b) => match b.to_quil() {
+                Ok(t2) => match Expression::from_str(&t2) {
+                    Ok(b2) => expr_to_sexp(&b2) == expr_to_sexp(b),
+                    Err(_) => false,
+                },
+                Err(_) => false,
+            },
+            Err(_) => false,
+        };
+        tagged(
+            "out",
+            vec![
+                st(text),
+                toks,
+                back_sexp,
+                tagged("vals", vec![list(orig), list(re)]),
+                tagged("routes", vec![atom(if routes_same { "same" } else { "differ" })]),
+                tagged("again", vec![boolean(again)]),
+            ],
+        )
+    });
+}
+
+// ------------------------------------------------------------------ expressions embedded in instructions
+
+const POSITIONS: [&str; 18] = [
+    "gate-param",
+    "gate-param2",
+    "delay",
+    "delay-frames",
+    "set-scale",
+    "set-phase",
+    "set-frequency",
+    "shift-phase",
+    "shift-frequency",
+    "raw-capture",
+    "pulse-arg",
+    "pulse-arg2",
+    "capture-arg",
+    "frame-attr",
+    "defcal-param",
+    "defgate-matrix",
+    "pauli-term",
+    "defwaveform",
+];
+
+fn frame() -> FrameIdentifier {
+    FrameIdentifier::new("f".to_string(), vec![Qubit::Fixed(0)])
+}
+
+fn invocation(args: Vec<(&str, Expression)>) -> WaveformInvocation {
+    let mut p = WaveformParameters::new();
+    for (k, v) in args {
+        p.insert(k.to_string(), v);
+    }
+    WaveformInvocation::new("w".to_string(), p)
+}
+
+fn embed(pos: &str, e: &Expression) -> Instruction {
+    let e = e.clone();
+    let ro = MemoryReference { name: "ro".to_string(), index: 0 };
+    let vars = vec!["x".to_string(), "y".to_string(), "z".to_string()];
+    match pos {
+        "gate-param" => Instruction::Gate(Gate::new("RX", vec![e], vec![Qubit::Fixed(0)], vec![]).unwrap()),
+        "gate-param2" => Instruction::Gate(Gate::new("U", vec![real(0.5), e, var("x")], vec![Qubit::Fixed(3)], vec![]).unwrap()),
+        "delay" => Instruction::Delay(Delay::new(e, vec![], vec![Qubit::Fixed(0)])),
+        "delay-frames" => Instruction::Delay(Delay::new(e, vec!["f".to_string()], vec![Qubit::Fixed(0), Qubit::Fixed(1)])),
+        "set-scale" => Instruction::SetScale(SetScale::new(frame(), e)),
+        "set-phase" => Instruction::SetPhase(SetPhase::new(frame(), e)),
+        "set-frequency" => Instruction::SetFrequency(SetFrequency::new(frame(), e)),
+        "shift-phase" => Instruction::ShiftPhase(ShiftPhase::new(frame(), e)),
+        "shift-frequency" => Instruction::ShiftFrequency(ShiftFrequency::new(frame(), e)),
+        "raw-capture" => Instruction::RawCapture(RawCapture::new(true, frame(), e, ro)),
+        "pulse-arg" => Instruction::Pulse(Pulse::new(true, frame(), invocation(vec![("a", e)]))),
+        "pulse-arg2" => Instruction::Pulse(Pulse::new(false, frame(), invocation(vec![("a", real(1.0)), ("b", e), ("c", var("x"))]))),
+        "capture-arg" => Instruction::Capture(Capture::new(true, frame(), ro, invocation(vec![("a", e)]))),
+        "frame-attr" => {
+            let mut attributes = FrameAttributes::new();
+            attributes.insert("DIRECTION".to_string(), AttributeValue::String("tx".to_string()));
+            attributes.insert("SAMPLE-RATE".to_string(), AttributeValue::Expression(e));
+            attributes.insert("INITIAL-FREQUENCY".to_string(), AttributeValue::Expression(real(1.0)));
+            Instruction::FrameDefinition(FrameDefinition::new(frame(), attributes))
+        }
+        "defcal-param" => Instruction::CalibrationDefinition(CalibrationDefinition::new(
+            CalibrationIdentifier::new("RX".to_string(), vec![], vec![e], vec![Qubit::Fixed(0)]).unwrap(),
+            vec![Instruction::Nop()],
+        )),
+        "defgate-matrix" => Instruction::GateDefinition(
+            GateDefinition::new(
+                "G".to_string(),
+                vars,
+                GateSpecification::Matrix(vec![vec![real(1.0), e.clone()], vec![e, real(0.0)]]),
+            )
+            .unwrap(),
+        ),
+        "pauli-term" => Instruction::GateDefinition(
+            GateDefinition::new(
+                "P".to_string(),
+                vars,
+                GateSpecification::PauliSum(
+                    PauliSum::new(
+                        vec!["q".to_string()],
+                        vec![PauliTerm::new(vec![(PauliGate::Z, "q".to_string())], real(2.0)), PauliTerm::new(vec![(PauliGate::X, "q".to_string())], e)],
+                    )
+                    .unwrap(),
+                ),
+            )
+            .unwrap(),
+        ),
+        "defwaveform" => Instruction::WaveformDefinition(WaveformDefinition::new(
+            "wf".to_string(),
+            Waveform::new(vec![real(1.0), e.clone(), e], vars),
+        )),
+        _ => unreachable!(),
+    }
+}
+
+/// every copy of the embedded expression read back from the instruction (all must agree)
+fn extract(pos: &str, i: &Instruction) -> Option<Vec<Expression>> {
+    Some(match (pos, i) {
+        ("gate-param", Instruction::Gate(g)) if g.parameters.len() == 1 => vec![g.parameters[0].clone()],
+        ("gate-param2", Instruction::Gate(g)) if g.parameters.len() == 3 => vec![g.parameters[1].clone()],
+        ("delay", Instruction::Delay(d)) if d.qubits.len() == 1 && d.frame_names.is_empty() => vec![d.duration.clone()],
+        ("delay-frames", Instruction::Delay(d)) if d.qubits.len() == 2 && d.frame_names.len() == 1 => vec![d.duration.clone()],
+        ("set-scale", Instruction::SetScale(x)) => vec![x.scale.clone()],
+        ("set-phase", Instruction::SetPhase(x)) => vec![x.phase.clone()],
+        ("set-frequency", Instruction::SetFrequency(x)) => vec![x.frequency.clone()],
+        ("shift-phase", Instruction::ShiftPhase(x)) => vec![x.phase.clone()],
+        ("shift-frequency", Instruction::ShiftFrequency(x)) => vec![x.frequency.clone()],
+        ("raw-capture", Instruction::RawCapture(x)) if x.memory_reference.name == "ro" => vec![x.duration.clone()],
+        ("pulse-arg", Instruction::Pulse(x)) if x.waveform.parameters.len() == 1 => vec![x.waveform.parameters.get("a")?.clone()],
+        ("pulse-arg2", Instruction::Pulse(x)) if x.waveform.parameters.len() == 3 => vec![x.waveform.parameters.get("b")?.clone()],
+        ("capture-arg", Instruction::Capture(x)) if x.waveform.parameters.len() == 1 => vec![x.waveform.parameters.get("a")?.clone()],
+        ("frame-attr", Instruction::FrameDefinition(x)) if x.attributes.len() == 3 => match x.attributes.get("SAMPLE-RATE")? {
+            AttributeValue::Expression(e) => vec![e.clone()],
+            _ => return None,
+        },
+        ("defcal-param", Instruction::CalibrationDefinition(x)) if x.identifier.parameters.len() == 1 => {
+            vec![x.identifier.parameters[0].clone()]
+        }
+        ("defgate-matrix", Instruction::GateDefinition(x)) => match &x.specification {
+            GateSpecification::Matrix(m) if m.len() == 2 && m[0].len() == 2 && m[1].len() == 2 => vec![m[0][1].clone(), m[1][0].clone()],
+            _ => return None,
+        },
+        ("pauli-term", Instruction::GateDefinition(x)) => match &x.specification {
+            GateSpecification::PauliSum(s) if s.terms.len() == 2 => vec![s.terms[1].expression.clone()],
+            _ => return None,
+        },
+        ("defwaveform", Instruction::WaveformDefinition(x)) if x.definition.matrix.len() == 3 => {
+            vec![x.definition.matrix[1].clone(), x.definition.matrix[2].clone()]
+        }
+        _ => return None,
+    })
+}
+
+fn emit_embedded(ctx: &mut Ctx, stream: &str, pos: &'static str, e: &Expression, aseed: u64) {
+    let input = tagged("emb", vec![atom(stream), atom(pos), expr_to_sexp(e), nat(aseed)]);
+    ctx.case(input, || {
+        let instruction = embed(pos, e);
+        let text = match instruction.to_quil() {
+            Ok(t) => t,
+            Err(err) => {
+                std::hint::black_box(exercise_error(&err));
+                return tagged("printerr", vec![]);
+            }
+        };
+        let envs = envs(aseed);
+        let orig = values(e, &envs);
+        let fromstr = match e.to_quil().ok().and_then(|t| Expression::from_str(&t).ok()) {
+            Some(b) => tagged("ok", vec![expr_to_sexp(&b)]),
+            None => tagged("err", vec![]),
+        };
+        let (emb, vals): (Sexp, Vec<Sexp>) = match Program::from_str(&text) {
+            Ok(p) => {
+                let is = p.to_instructions();
+                let found = if is.len() == 1 { extract(pos, &is[0]) } else { None };
+                match found {
+                    Some(es) if es.iter().all(|x| expr_to_sexp(x) == expr_to_sexp(&es[0])) => {
+                        (tagged("ok", vec![expr_to_sexp(&es[0])]), values(&es[0], &envs))
+                    }
+                    _ => (tagged("badshape", vec![]), vec![]),
+                }
+            }
+            Err(err) => {
+                std::hint::black_box(exercise_error(&err));
+                (tagged("err", vec![]), vec![])
+            }
+        };
+        tagged("embout", vec![st(text), emb, fromstr, tagged("vals", vec![list(orig), list(vals)])])
+    });
+}
+
+fn emit_immediate(ctx: &mut Ctx, c: Complex64) {
+    ctx.case(tagged("imm", vec![f64bits(c.re), f64bits(c.im)]), || {
+        let call = Instruction::Call(Call::try_new("fn".to_string(), vec![UnresolvedCallArgument::Immediate(c)]).unwrap());
+        let text = match call.to_quil() {
+            Ok(t) => t,
+            Err(_) => return tagged("printerr", vec![]),
+        };
+        let back = match Program::from_str(&text) {
+            Ok(p) => match p.to_instructions().as_slice() {
+                [Instruction::Call(c)] => match c.arguments.as_slice() {
+                    [UnresolvedCallArgument::Immediate(v)] => tagged("ok", vec![f64bits(v.re), f64bits(v.im)]),
+                    _ => tagged("badshape", vec![]),
+                },
+                _ => tagged("badshape", vec![]),
+            },
+            Err(err) => {
+                std::hint::black_box(exercise_error(&err));
+                tagged("err", vec![])
+            }
+        };
+        tagged("immout", vec![st(text), back])
     });
 }
 
@@ -119,47 +379,72 @@ fn finite_from_bits(bits: u64) -> f64 {
     }
 }
 
+/// every magnitude at which the formatter or the lexer changes behaviour, with both neighbours (±1 ulp):
+/// fixed ↔ scientific notation (1e-5 … 1e-4, 1e15, 1e16), trimmed integers, 2^53 (integers stop being exact),
+/// 2^63 / 2^64 (the lexer's u64 integer read), 1e19 … 1e23, 1e300, MAX, the normal/subnormal border, the
+/// smallest subnormal; plus ordinary fractions
 fn boundary_values() -> Vec<f64> {
-    let mut v = vec![
-        0.0,
+    let pivots: Vec<f64> = vec![
         1.0,
         2.0,
         10.0,
         0.1,
         0.5,
         1.5,
-        1e-5,
+        1e-7,
+        1e-6,
         9.9e-6,
+        1e-5,
+        1.1e-5,
         1e-4,
+        1e-3,
         0.00001234,
         123456.789,
+        1e9,
+        1e10,
         1e14,
+        99999999999999.98,
+        123456789012345.6,
         999_999_999_999_999.0,
         1e15,
         1_000_000_000_000_001.0,
-        1e16,
+        9_007_199_254_740_991.0,
         9_007_199_254_740_992.0,
-        9_007_199_254_740_993.0,
+        9_007_199_254_740_994.0,
+        9_999_999_999_999_998.0,
+        1e16,
+        1e17,
+        1e18,
         9.223372036854775807e18,
+        1e19,
         1.8446744073709552e19,
+        1.2345678901234567e19,
+        9.9999999999999e19,
+        1e20,
+        1e21,
         1e22,
         1e23,
         1e100,
         1e300,
         f64::MAX,
         f64::MIN_POSITIVE,
-        5e-324,
-        2.2250738585072009e-308,
         1e-300,
+        1e-310,
         std::f64::consts::PI,
         std::f64::consts::E,
         1.0 / 3.0,
         0.30000000000000004,
         4.35,
-        1e-7,
-        123456789012345.6,
-        99999999999999.98,
     ];
+    let mut v = vec![0.0, 5e-324, 1e-323, f64::from_bits(0x000F_FFFF_FFFF_FFFF)];
+    for p in pivots {
+        let b = p.to_bits();
+        for x in [f64::from_bits(b - 1), p, f64::from_bits(b + 1)] {
+            if x.is_finite() {
+                v.push(x);
+            }
+        }
+    }
     let neg: Vec<f64> = v.iter().filter(|x| **x != 0.0).map(|x| -*x).collect();
     v.extend(neg);
     v
@@ -172,7 +457,8 @@ fn random_finite(rng: &mut Rng) -> f64 {
             // an integer-valued double of random magnitude
             let k = rng.below(64);
             let n = rng.next() >> k;
-            let x = n as f64;
+            // up to 2^64, and (one time in four) up to 2^74: beyond the lexer's u64 integer read
+            let x = if rng.chance(1, 4) { (n as f64) * 1024.0 } else { n as f64 };
             if rng.chance(1, 2) {
                 x
             } else if x == 0.0 {
@@ -316,7 +602,7 @@ fn run(ctx: &mut Ctx) {
             emit(ctx, "numleaf", &num(1.0, re), fixed);
         }
     }
-    let n_leaves = if quick { 6_000 } else { 400_000 };
+    let n_leaves = if quick { 4_000 } else { 400_000 };
     for _ in 0..n_leaves {
         let e = random_literal(&mut rng);
         emit(ctx, "numleaf", &e, fixed);
@@ -360,7 +646,8 @@ fn run(ctx: &mut Ctx) {
     //    (c) depth ≤ 3 over a minimal alphabet that still has every printed kind of operand:
     //        negative real, negative-imaginary complex / variable; one function, both prefixes, `^` (and `-`)
     if quick {
-        let a = alphabet(vec![real(-1.5), var("x")], &[SquareRoot], &[P::Plus, P::Minus], &[I::Caret]);
+        // (function calls at depth 3 are in the thorough tier; a call resets the printing context)
+        let a = alphabet(vec![real(-1.5), var("x")], &[], &[P::Plus, P::Minus], &[I::Caret]);
         for e in all_exprs(&a, 3) {
             emit(ctx, "exh-min-d3", &e, fixed);
         }
@@ -376,7 +663,7 @@ fn run(ctx: &mut Ctx) {
     }
 
     // 4. random trees to depth 7 over the full alphabet + random literals, fresh assignments per case
-    let n_random = if quick { 12_000 } else { 600_000 };
+    let n_random = if quick { 8_000 } else { 600_000 };
     let mut alpha = random_alphabet(&mut rng);
     for k in 0..n_random {
         if k % 64 == 0 {
@@ -386,6 +673,163 @@ fn run(ctx: &mut Ctx) {
         let e = random_expr(&mut rng, &alpha, d);
         let aseed = rng.next() >> 16;
         emit(ctx, "random", &e, aseed);
+    }
+
+    // 6. names: region and variable names equal, up to letter case, to the identifiers the expression parser
+    //    treats specially (cis cos exp i pi sin sqrt) and to every reserved word of the lexer (commands, data
+    //    types, modifiers, keywords), in every expression position
+    let special = ["cis", "cos", "exp", "i", "pi", "sin", "sqrt"];
+    let case_variants = |w: &str| -> Vec<String> {
+        let mut cap = w.to_string();
+        cap[..1].make_ascii_uppercase();
+        let alt: String = w.chars().enumerate().map(|(k, c)| if k % 2 == 1 { c.to_ascii_uppercase() } else { c }).collect();
+        let mut v = vec![w.to_string(), w.to_uppercase(), cap, alt];
+        v.dedup();
+        v
+    };
+    let in_positions = |leaf: Expression| -> Vec<Expression> {
+        vec![
+            leaf.clone(),
+            infix(leaf.clone(), I::Star, real(2.0)),
+            infix(real(2.0), I::Caret, leaf.clone()),
+            infix(leaf.clone(), I::Minus, leaf.clone()),
+            infix(infix(leaf.clone(), I::Plus, x()), I::Slash, leaf.clone()),
+            prefix(P::Minus, leaf.clone()),
+            prefix(P::Minus, prefix(P::Plus, prefix(P::Minus, leaf.clone()))),
+            call(Exponent, leaf.clone()),
+            call(SquareRoot, infix(num(1.0, -2.0), I::Star, leaf)),
+        ]
+    };
+    for w in special {
+        for name in case_variants(w) {
+            for (k, e) in in_positions(addr(&name, 0)).into_iter().enumerate() {
+                emit(ctx, "names-special", &e, fixed);
+                if k < 3 {
+                    emit(ctx, "names-special", &in_positions(addr(&name, 1 + k as u64))[k], fixed);
+                }
+            }
+            for e in in_positions(var(&name)) {
+                emit(ctx, "names-special", &e, fixed);
+            }
+        }
+    }
+    let reserved = [
+        "ADD", "AND", "ASHR", "CALL", "CAPTURE", "CONVERT", "DECLARE", "DEFCAL", "DEFCIRCUIT", "DEFFRAME", "DEFGATE",
+        "DEFWAVEFORM", "DELAY", "DIV", "EQ", "EXCHANGE", "FENCE", "GE", "GT", "HALT", "INCLUDE", "IOR", "JUMP",
+        "JUMP-UNLESS", "JUMP-WHEN", "LABEL", "LE", "LOAD", "LT", "MEASURE", "MOVE", "MUL", "NEG", "NOP", "NOT", "PRAGMA",
+        "PULSE", "RAW-CAPTURE", "RESET", "SET-FREQUENCY", "SET-PHASE", "SET-SCALE", "SHIFT-FREQUENCY", "SHIFT-PHASE",
+        "SHL", "SHR", "STORE", "SUB", "SWAP-PHASES", "WAIT", "XOR", "BIT", "OCTET", "REAL", "INTEGER", "CONTROLLED",
+        "DAGGER", "FORKED", "AS", "MATRIX", "mut", "NONBLOCKING", "OFFSET", "PAULI-SUM", "PERMUTATION", "SEQUENCE",
+        "SHARING",
+    ];
+    for w in reserved {
+        // the reserved spelling itself (variables only: a region so named is the known finding below) and
+        // its other-case spellings, which are ordinary identifiers
+        emit(ctx, "names-reserved", &infix(var(w), I::Minus, real(1.0)), fixed);
+        emit(ctx, "names-reserved", &call(Sine, var(&w.to_lowercase())), fixed);
+        let other = if w == "mut" { "MUT".to_string() } else { w.to_lowercase() };
+        emit(ctx, "names-reserved", &infix(addr(&other, 2), I::Star, addr(&other, 0)), fixed);
+        emit(ctx, "names-reserved-region", &infix(addr(w, 0), I::Plus, real(1.0)), fixed);
+    }
+
+    // 7. operator chains of length 3 for every ordered pair of operators in both association orders, with
+    //    plain, signed and complex operands and a prefix minus in every place; compared by VALUE
+    let triples: Vec<[Expression; 3]> = vec![
+        [x(), var("y"), addr("a", 1)],
+        [real(2.0), real(-1.5), x()],
+        [num(1.0, 2.0), x(), real(0.5)],
+        [real(-3.0), num(0.0, -2.0), num(1.5, -0.5)],
+    ];
+    for o1 in ALL_INFIX {
+        for o2 in ALL_INFIX {
+            for [a, b, c] in triples.iter().cloned() {
+                let left = |a: Expression, b: Expression, c: Expression| infix(infix(a, o1, b), o2, c);
+                let right = |a: Expression, b: Expression, c: Expression| infix(a, o1, infix(b, o2, c));
+                let neg = |e: Expression| prefix(P::Minus, e);
+                for e in [
+                    left(a.clone(), b.clone(), c.clone()),
+                    right(a.clone(), b.clone(), c.clone()),
+                    left(neg(a.clone()), b.clone(), c.clone()),
+                    right(neg(a.clone()), b.clone(), c.clone()),
+                    left(a.clone(), neg(b.clone()), c.clone()),
+                    right(a.clone(), b.clone(), neg(c.clone())),
+                    neg(left(a.clone(), b.clone(), c.clone())),
+                    infix(neg(infix(a.clone(), o1, b.clone())), o2, c.clone()),
+                    infix(a.clone(), o1, neg(infix(b.clone(), o2, c.clone()))),
+                ] {
+                    emit(ctx, "chains", &e, fixed);
+                }
+            }
+        }
+    }
+    // chains of length 4 and 5, random association
+    for _ in 0..(if quick { 600 } else { 20_000 }) {
+        let n = 4 + rng.below(2) as usize;
+        let pool = [x(), var("y"), real(2.0), real(-1.5), num(1.0, 2.0), num(0.0, -2.0), addr("a", 0), Expression::PiConstant()];
+        let mut items: Vec<Expression> = (0..n).map(|_| rng.pick(&pool).clone()).collect();
+        while items.len() > 1 {
+            let k = rng.below(items.len() as u64 - 1) as usize;
+            let r = items.remove(k + 1);
+            let l = items.remove(k);
+            let mut node = infix(l, *rng.pick(&ALL_INFIX), r);
+            if rng.chance(1, 5) {
+                node = prefix(P::Minus, node);
+            }
+            items.insert(k, node);
+        }
+        emit(ctx, "chains", &items[0], rng.next() >> 16);
+    }
+
+    // 8. the same expressions embedded in instructions, printed with the instruction and read back through
+    //    Program::from_str: every position of the grammar that holds an expression
+    let mut embedded: Vec<Expression> = corpus.clone();
+    embedded.extend(all_exprs(&full, 0));
+    for &v in &[1e-5, 9.9e-6, 1e15, 1e16, 9_007_199_254_740_993.0, 1.8446744073709552e19, 1e20, 1e21, 5e-324, -1e300] {
+        embedded.push(real(v));
+        embedded.push(num(0.0, v));
+        embedded.push(num(-2.0, v));
+    }
+    // every shape of depth ≤ 1, and a prefix operator over every such shape (an instruction printer may treat
+    // any of them specially, e.g. DELAY parenthesises durations that would read as a qubit)
+    let shapes = all_exprs(
+        &alphabet(
+            vec![real(2.0), real(-1.5), num(1.5, -0.5), x(), addr("a", 0), Expression::PiConstant()],
+            &[Sine],
+            &[P::Plus, P::Minus],
+            &[I::Minus, I::Caret],
+        ),
+        1,
+    );
+    for t in &shapes {
+        embedded.push(t.clone());
+        if depth(t) == 1 {
+            embedded.push(prefix(P::Plus, t.clone()));
+            embedded.push(prefix(P::Minus, t.clone()));
+        }
+    }
+    embedded.push(addr("Sin", 1));
+    embedded.push(addr("PI", 0));
+    embedded.push(var("exp"));
+    embedded.push(infix(infix(x(), I::Minus, var("y")), I::Minus, addr("a", 0)));
+    let n_emb_random = if quick { 12 } else { 1500 };
+    for pos in POSITIONS {
+        for e in &embedded {
+            emit_embedded(ctx, "embedded", pos, e, fixed);
+        }
+        for _ in 0..n_emb_random {
+            let d = 1 + rng.below(4) as usize;
+            let e = random_expr(&mut rng, &alpha, d);
+            emit_embedded(ctx, "embedded-random", pos, &e, rng.next() >> 16);
+        }
+    }
+    // CALL immediate arguments (a Complex64, printed by format_complex, read by parse_call_immediate)
+    for &v in &boundary_values() {
+        emit_immediate(ctx, Complex64::new(v, 0.0));
+        if v != 0.0 {
+            emit_immediate(ctx, Complex64::new(0.0, v));
+            emit_immediate(ctx, Complex64::new(v, -v));
+            emit_immediate(ctx, Complex64::new(1.5, v));
+        }
     }
 
     // 5. literals with a negative-zero component (finite, but the sign of a zero is not printed).  Built and
